@@ -317,6 +317,23 @@ def _law_case(case):
         case.check(close(((A @ B) @ P)(scale), (A @ (B @ P))(scale)), "composition with a provider is not associative", None)
         case.check(isinstance(A @ P, pipe.ImageProvider) and isinstance(A @ B, pipe.ImageConverter),
                    "composition returns the wrong pipeline type", None)
+        # converters are pure: evaluating one twice (any scale) gives the same image and leaves the
+        # parameters passed by the caller untouched
+        sh_arr = rng.uniform(-1.5, 1.5, 3).astype(np.float64) * scale
+        sh_keep = sh_arr.copy()
+        sg_arr = np.array([0.8, 1.1, 0.6]) * scale
+        for nm_, cv in (("shift(ndarray)", pipe.shift(sh_arr)), ("gaussian_filter(ndarray)", pipe.gaussian_filter(sigma=sg_arr)),
+                        ("shift(tuple)", pipe.shift(tuple(sh_arr)))):
+            y1 = np.asarray(cv(x, scale)).copy()
+            _ = cv(x, scale * 2.0)
+            y2 = np.asarray(cv(x, scale))
+            case.check(close(y1, y2, 1e-6), f"{nm_}: a second evaluation of the same converter gives another image",
+                       None, scale=scale)
+        case.check(np.array_equal(sh_arr, sh_keep), "pipe.shift modified the shift array passed by the caller", None)
+        from scipy import ndimage as _ndi
+        want_sh = _ndi.shift(x, sh_keep / scale, order=1, mode="nearest", prefilter=False)
+        case.check(close(pipe.shift(sh_keep)(x, scale), want_sh, 1e-5), "pipe.shift does not shift by shift/scale pixels",
+                   None, scale=scale)
         f = A.with_scale(scale)
         case.check(close(f(x), A(x, scale)), "with_scale(scale)(x) != converter(x, scale)", None)
         try:
@@ -407,6 +424,19 @@ def _law_case(case):
                 case.check(float(np.abs(pk_in - pk_out).max()) <= 1.6 / min(min(want_shape), min(shape)),
                            "from_array: resampled image has its peak elsewhere", None, pk_in=pk_in, pk_out=pk_out)
             case.check(out.dtype == np.float32, "from_array: resampled dtype is not float32", None, dtype=str(out.dtype))
+        # the tolerance is relative: the decision to resample is the same in any length unit
+        # (pairs chosen so that resampling changes the shape: at equal shape scipy's zoom is the identity)
+        for o2, s2, tol2, same in ((0.1, 0.108, 0.01, False), (6.0, 7.0, 0.2, True), (30.0, 33.0, 0.15, True),
+                                  (0.1, 0.1005, 0.01, True), (40.0, 46.0, 0.05, False)):
+            r2 = pipe.from_array(img, original_scale=o2, tol=tol2)(s2)
+            unchanged_ = r2.shape == img.shape and np.array_equal(r2, img)
+            if min(shape) >= 8:
+                case.check(unchanged_ == same, "from_array: resampling decision is not |original/scale - 1| < tol", None,
+                           original=o2, scale=s2, tol=tol2, resampled=not unchanged_, shape=shape, got=r2.shape)
+            for lam2 in (10.0, 0.04):
+                r3 = pipe.from_array(img, original_scale=o2 * lam2, tol=tol2)(s2 * lam2)
+                case.check(r3.shape == r2.shape and close(r3, r2, 1e-5), "from_array: result changes when both scales "
+                           "are expressed in another unit", None, original=o2, scale=s2, factor=lam2)
         outs = pipe.from_arrays([img, img * 2], original_scale=o)(scale)
         case.check(isinstance(outs, list) and len(outs) == 2 and close(outs[0], out) and close(outs[1], out * 2, 1e-4),
                    "from_arrays != [from_array(img) for img in imgs]", None)
